@@ -598,4 +598,58 @@ def k7(ctx, kr):
     kr.exhaustive = True
     kr.outside = ['labels of the other rules; more than four names']
 
-KERNELS = [k1, k2, k3, k5, k6, k7]
+
+# ---------------------------------------------------------------------------------------------- K8 the label of a rule's diagnostic covers the construct it talks about
+def _k8_job(job):
+    uname, split = job
+    from . import tplcommon as TP
+    from .units import FAULTY
+    decls, code, labs = FAULTY[uname]
+    files = [''.join(d for d, f in zip(decls, split) if f == i) for i in range(max(split) + 1)]
+    outs, part = TP.analyze_files(_CTX, files)
+    for o in outs:
+        if o == 'rejected': part.inconc('%s does not parse' % uname); continue
+        kind, ds = o
+        mine = [d for d in ds if d[0] == code]
+        if not mine: continue                     # a missing diagnostic is C02's matter
+        for (c, lab, fi) in mine:
+            src = files[fi] if fi is not None and fi < len(files) else None
+            if lab not in labs:
+                part.add('C05/K8/%s/label-not-at-construct' % uname, 'unit %s: the primary label of %s covers %r (file %s); the construct the message is about is spelled %s' % (uname, code, lab, fi, ' or '.join(map(repr, labs))),
+                         {'files': files, 'label_text': lab}, ('unit_label', (uname, list(split))))
+        if len(part.samples) < 1: part.samples.append({'unit': uname, 'label_text': mine[0][1]})
+    if not part.findings and len(part.validate) < 1: part.validate.append(('unit_label', (uname, list(split))))
+    return part
+
+@replay_factory('unit_label')
+def _replay_unit_label(uname, split):
+    def rp(ctx):
+        from . import tplcommon as TP
+        from .units import FAULTY
+        decls, code, labs = FAULTY[uname]
+        files = [''.join(d for d, f in zip(decls, split) if f == i) for i in range(max(split) + 1)]
+        got = TP.real_analyze(ctx, files)
+        if got in ('panic', 'rejected'): return None, {'result': got}
+        mine = [g for g in got if g[0] == code]
+        if not mine: return None, {'note': 'the diagnostic is not reported', 'got': got}
+        return any(g[1] not in labs for g in mine), {'unit': uname, 'files': files, 'labels': [g[1] for g in mine], 'expected_one_of': labs}
+    return rp
+
+@kernel('K8 rules.label_covers_the_construct')
+def k8(ctx, kr):
+    global _CTX
+    _CTX = ctx
+    from .units import FAULTY
+    kr.bounds = ('%d compilation units with exactly one fault (%s), as one file and split into two files: parse_program + stages::analyze on the MIR (every toposort tie-break); the primary label of the fault\'s diagnostic '
+                 'lies inside the file it names and its text is the spelling of the construct the message talks about' % (len(FAULTY), ', '.join(FAULTY)))
+    jobs = []
+    for u, (decls, code, labs) in FAULTY.items():
+        k = len(decls); jobs.append((u, tuple([0] * k)))
+        if k > 1: jobs.append((u, tuple([0] * (k - 1) + [1])))
+    for part in par_map(_k8_job, jobs): merge_part(kr, part)
+    P = ctx.program()
+    kr.functions = fn_paths(P, getattr(kr, '_enc', set()))[:150]
+    kr.exhaustive = True
+    kr.outside = ['diagnostics of other constructs; secondary labels (K6, K7)']
+
+KERNELS = [k1, k2, k3, k5, k6, k7, k8]
